@@ -31,7 +31,7 @@ func Ops() []*core.Op {
 			Labels:         nodeLabels,
 			Signature:      nodeSignature,
 			Shrink:         shrinkNode,
-			ExhaustiveNote: "single-claim matrix ready x instance x taint x Drained state/age x pod case x attachment case x deadline (4032 states) + every single fault position x class on 48 base states",
+			ExhaustiveNote: "single-claim matrix ready x instance x taint x Drained state/age x pod case x attachment case (none, blocking, of an undrainable pod, inline, deleted-but-held by the attacher's finalizer, not attached, detach failing) x deadline (7056 states) + every single fault position x class on 60 base states (incl. a lingering deleted attachment with and without an expired deadline)",
 		},
 		{
 			Name: "c09.claim",
@@ -57,7 +57,7 @@ func Ops() []*core.Op {
 		},
 		{
 			Name: "c09.protocol",
-			Doc:  "whole deletion histories: the REAL node termination controller and the REAL NodeClaim lifecycle controller (incl. the launch that precedes a deletion) reconciling in arbitrary order on one fake API + provider, interleaved with environment events (user deletes, pods leaving / terminating / arriving late, attachments detaching, clock, instance disappearing, kubelet not ready, process restart) and per-call faults / crashes; the Lean transition system is compared after every event, the specification judges the ground truth at every finalizer removal and provider Delete, and every state is checked for an orphaned instance",
+			Doc:  "whole deletion histories: the REAL node termination controller and the REAL NodeClaim lifecycle controller (incl. the launch that precedes a deletion) reconciling in arbitrary order on one fake API + provider, interleaved with environment events (user deletes, pods leaving / terminating / arriving late, attachments detaching at once or lingering in deletion behind the attacher's finalizer / appearing late, clock, instance disappearing, kubelet not ready, process restart) and per-call faults / crashes; the Lean transition system is compared after every event, the specification judges the ground truth at every finalizer removal and provider Delete, and every state is checked for an orphaned instance",
 			N: func(t core.Tier) int {
 				if t == core.Thorough {
 					return 12000
@@ -72,7 +72,7 @@ func Ops() []*core.Op {
 			Labels:         protoLabels,
 			Signature:      func(json.RawMessage, any) string { return "protocol" },
 			Shrink:         shrinkProto,
-			ExhaustiveNote: "8 scripted histories x every reconcile event x every fault kind x class injected at that event alone; thorough: + a restart before every event, + every pair of reconcile events x 4x4 failing call kinds",
+			ExhaustiveNote: "11 scripted histories (two with attachments that linger in deletion, one with an attachment that appears late) x every reconcile event x every fault kind x class injected at that event alone; thorough: + a restart before every event, + every pair of reconcile events x 4x4 failing call kinds",
 		},
 	}
 }
